@@ -57,17 +57,23 @@ def main():
         res["check_exit"] = rc
         res["check_wall_s"] = round(time.time() - t0, 1)
         res["check_out"] = [l for l in out.splitlines() if l.startswith(("VIOLATION", "ERROR", "KNOWN", pid))][:6]
-        res["detected"] = (rc == 1 and any(l.startswith("VIOLATION") for l in out.splitlines()))
+        # detected = a VIOLATION whose replay is about the CODE (failing input, crash, hang, race, broken correspondence,
+        # harness no longer builds, regenerated obligation fails) - not the "no theorem file yet" state of an unclaimed property
+        res["detected"] = False
+        kinds = []
         for l in out.splitlines():
             if l.startswith("VIOLATION"):
                 rp = l.split("replay=")[1].split()[0]
                 try:
                     j = json.load(open(os.path.join(ROOT, rp)))
-                    res["replay"] = {k: (str(j.get(k))[:300]) for k in ("kind", "op", "args", "impl_output", "model_output", "broken")}
+                    kinds.append(j.get("kind"))
+                    if "replay" not in res and not (j.get("kind") == "proof-obligation" and ("obligations not discharged" in str(j.get("broken")) or "no Properties/" in str(j.get("broken")))):
+                        res["replay"] = {k: (str(j.get(k))[:300]) for k in ("kind", "op", "args", "impl_output", "model_output", "broken")}
+                        res["detected"] = (rc == 1)
                     os.remove(os.path.join(ROOT, rp))
                 except Exception as e:
-                    res["replay"] = str(e)
-                break
+                    res.setdefault("replay_errors", []).append(str(e))
+        res["violation_kinds"] = kinds
     finally:
         subprocess.run(["git", "-C", "/repo", "worktree", "remove", "--force", wt], stdout=subprocess.DEVNULL, stderr=subprocess.DEVNULL)
         shutil.rmtree(wt, ignore_errors=True)
